@@ -192,6 +192,12 @@ func c13(raw json.RawMessage, resp *drv.Response) error {
 						inst.Batches = append(inst.Batches, batch)
 						openings.Batches = append(openings.Batches, ob)
 					}
+					if rep%2 == 1 {
+						// the same chip has already combined with another alpha: nothing it remembers may leak into this call
+						alpha2 := gl.New(api).AddExtension(alpha, gl.OneExtension())
+						pre2 := chip.VerifFromOpeningsAndAlpha(&openings, alpha2)
+						chip.VerifFriCombineInitial(inst, proof, alpha2, x, pre2)
+					}
 					pre := chip.VerifFromOpeningsAndAlpha(&openings, alpha)
 					got = getE(chip.VerifFriCombineInitial(inst, proof, alpha, x, pre))
 					return nil
